@@ -103,6 +103,22 @@ def make_helpers(int_candidates):
             doms.append(d)
         return all(fn(*p) for p in itertools.product(*doms))
 
+    def exists(fn, *ranges):
+        n = len(ranges) if ranges else fn.__code__.co_argcount
+        doms = []
+        for k in range(n):
+            r = ranges[k] if k < len(ranges) else None
+            if r is None or r[0] is None or r[1] is None:
+                lo = None if r is None else r[0]
+                hi = None if r is None else r[1]
+                d = [c for c in cands if (lo is None or c >= lo) and (hi is None or c < hi)]
+            else:
+                lo, hi = int(r[0]), int(r[1])
+                d = list(range(lo, hi)) if hi - lo <= 64 else \
+                    [c for c in cands if lo <= c < hi] + [lo, hi - 1]
+            doms.append(d)
+        return any(fn(*p) for p in itertools.product(*doms))
+
     def iff(a, b):
         return bool(a) == bool(b)
 
@@ -115,7 +131,8 @@ def make_helpers(int_candidates):
     def is_int(x):
         import numbers
         return isinstance(x, numbers.Integral)
-    return {'forall': forall, 'iff': iff, 'sq': sq, 'is_none': is_none, 'is_int': is_int}
+    return {'forall': forall, 'exists': exists, 'iff': iff, 'sq': sq, 'is_none': is_none,
+            'is_int': is_int}
 
 
 def val(v):
@@ -314,12 +331,15 @@ def _replay_one(rec, fullmodel):
         except Exception as e:  # noqa: BLE001
             return 'error', f'requires {r!r}: {e}', observed
     failed = []
+    eval_errors = []
     if raised is None:
         for label, text in rp.get('ensures', []):
             try:
                 ok = eval(_compile(text), scope)
             except Exception as e:  # noqa: BLE001
-                failed.append(f'{label}: evaluation error {type(e).__name__}: {e}')
+                # the clause cannot be evaluated on this input (a limit of the replay, not of
+                # the code): never counted as a violation
+                eval_errors.append(f'{label}: evaluation error {type(e).__name__}: {e}')
                 continue
             if not ok:
                 failed.append(label)
@@ -343,6 +363,8 @@ def _replay_one(rec, fullmodel):
             failed.append(f'unlisted exception {observed["raised"]}')
     if failed:
         return 'confirmed', '; '.join(failed), observed
+    if eval_errors:
+        return 'error', '; '.join(eval_errors), observed
     return 'spurious', 'real code satisfies the contract on this input', observed
 
 
